@@ -841,8 +841,12 @@ Proof.
     cbn [sd_kids] in Hsd. apply andb_true_iff in Hsd. destruct Hsd as [Hsx Hsxs].
     cbn [kid_ids] in Hnd, Hfresh. inversion Hnd as [|? ? Hxnot Hndxs]; subst.
     cbn [JLayoutCommon.kids_union_ids anchored_kids redef_targets sib_ok] in *. rewrite (IHx Hwx Hsx).
-    unfold union_of, is_member, is_redefiner. destruct (item_redef x) as [u|] eqn:Er.
-    + apply andb_true_iff in Hsib. destruct Hsib as [Hub Hsib]. apply existsb_eqb_In in Hub.
+    rewrite union_of_unf. unfold is_member, is_redefiner. destruct (item_redef x) as [u|] eqn:Er.
+    + assert (Hb : forall (b : bool) (p q : list id),
+                match (if b then Some (item_id x) else Some u) with Some _ => p | None => q end = p)
+        by (intros []; reflexivity).
+      rewrite Hb. clear Hb.
+      apply andb_true_iff in Hsib. destruct Hsib as [Hub Hsib]. apply existsb_eqb_In in Hub.
       cbn [orb]. f_equal. f_equal.
       change (tg0 ++ u :: redef_targets xs) with (tg0 ++ [u] ++ redef_targets xs). rewrite app_assoc.
       apply (IHxs Hwxs Hsxs bases (tg0 ++ [u]) Hsib Hndxs).
